@@ -57,6 +57,7 @@
 package c09
 
 import (
+	"bufio"
 	"context"
 	"encoding/json"
 	"fmt"
@@ -336,6 +337,7 @@ type step struct {
 	x     int   // max_requests of the first upstream (0 = not set)
 	dyn   bool  // Y step: the upstreams come from a dynamic source
 	skeys []int // Y step: static upstreams (fallback while the source fails)
+	ws    bool  // N step: the request asks for a protocol upgrade (websocket)
 	fail  bool  // E step: the source starts (true) / stops failing
 	lat   bool  // passive unhealthy_latency configured (latencyLimit)
 	act   bool  // active health checks run every few milliseconds (thresholds out of reach: they must not change anything)
@@ -376,7 +378,7 @@ func parseKeys(s string, K int) ([]int, bool) {
 	return out, len(out) <= 8
 }
 
-var outcomes = map[string]bool{"ok": true, "sb": true, "se": true, "sl": true, "e5": true, "c404": true, "c429": true, "c502": true, "c503": true,
+var outcomes = map[string]bool{"ok": true, "sb": true, "se": true, "wu": true, "sl": true, "e5": true, "c404": true, "c429": true, "c502": true, "c503": true,
 	"rst": true, "hup": true, "pan": true, "her": true}
 
 // answerStatus: the status code of a complete answer (0 = the answer token is something else).
@@ -384,6 +386,8 @@ func answerStatus(out string) int {
 	switch out {
 	case "ok", "sb", "sl", "hup", "pan", "her": // sl: a 200 that takes longer than unhealthy_latency; hup/pan/her: a 200 whose body breaks off / whose response handler panics / fails
 		return 200
+	case "wu": // 101 Switching Protocols
+		return 101
 	case "e5":
 		return 500
 	case "c404", "c429", "c502", "c503":
@@ -458,10 +462,11 @@ func parseStep(s string, K int) (st step, ok bool) {
 	case 'C':
 		return st, len(f) == 1
 	case 'N':
-		if len(f) != 2 || (f[1] != "G" && f[1] != "P") {
+		if len(f) != 2 || (f[1] != "G" && f[1] != "P" && f[1] != "W") {
 			return st, false
 		}
-		st.get = f[1] == "G"
+		st.get = f[1] != "P"
+		st.ws = f[1] == "W" // a GET that asks for a protocol upgrade
 		return st, true
 	case 'O':
 		if len(f) != 3 || !outcomes[f[2]] {
@@ -581,6 +586,7 @@ type reqSt struct {
 	done      bool
 	since     time.Time // when it was parked
 	w         *syncWriter
+	ws        bool // it asked for a protocol upgrade
 	streaming bool // header and first part of the body have arrived, the rest is pending
 	aged      bool // it was already parked while a slow answer was being waited for: its round trip is slow too
 }
@@ -744,6 +750,33 @@ func (b *backend) ServeHTTP(w http.ResponseWriter, r *http.Request) {
 	case "sl":
 		time.Sleep(slowAnswer)
 		w.Write([]byte("ok"))
+	case "wu":
+		// switch protocols and keep the connection open until told to close it (or the peer does)
+		hj, ok := w.(http.Hijacker)
+		if !ok {
+			return
+		}
+		conn, _, err := hj.Hijack()
+		if err != nil {
+			return
+		}
+		conn.Write([]byte("HTTP/1.1 101 Switching Protocols\r\nConnection: Upgrade\r\nUpgrade: websocket\r\n\r\nx"))
+		gone := make(chan struct{})
+		go func() {
+			buf := make([]byte, 16)
+			for {
+				if _, err := conn.Read(buf); err != nil {
+					close(gone)
+					return
+				}
+			}
+		}()
+		select {
+		case <-cmd:
+		case <-gone:
+		case <-time.After(30 * time.Second):
+		}
+		conn.Close()
 	case "sb":
 		// stream: header and a first part now, the rest when told (or never, if the client goes away)
 		w.Write([]byte("part"))
@@ -801,6 +834,8 @@ func (k *kase) handlerJSON(st step, bad bool) []byte {
 		"upstreams":      ups,
 		"load_balancing": lb,
 		"transport":      map[string]any{"protocol": "http", "keep_alive": map[string]any{"enabled": false}},
+		// upgraded connections survive the unloading of their configuration for longer than any case
+		"stream_close_delay": int64(time.Hour),
 		"handle_response": []any{
 			map[string]any{"match": map[string]any{"headers": map[string]any{"X-Verif": []string{"panic"}}},
 				"routes": []any{map[string]any{"handle": []any{map[string]any{"handler": "verif_c09_probe", "mode": "panic"}}}}},
@@ -914,7 +949,7 @@ func (k *kase) viaCaddyfile(st step) (map[string]any, bool) {
 			fmt.Fprintf(&b, "\tunhealthy_latency %s\n", latencyLimit.String())
 		}
 	}
-	b.WriteString("\ttransport http {\n\t\tkeepalive off\n\t}\n}\n")
+	b.WriteString("\tstream_close_delay 1h\n\ttransport http {\n\t\tkeepalive off\n\t}\n}\n")
 	h := new(reverseproxy.Handler)
 	if err := h.UnmarshalCaddyfile(caddyfile.NewTestDispenser(b.String())); err != nil {
 		k.infra = "caddyfile: " + err.Error()
@@ -1018,15 +1053,19 @@ func (k *kase) waitReq(r *reqSt) string {
 // syncWriter is the ResponseWriter of a proxied request: like a recorder, but safe to watch from
 // the controller, which needs to know when the first part of a streamed body has arrived.
 type syncWriter struct {
-	mu    sync.Mutex
-	hdr   http.Header
-	code  int
-	n     int
-	first chan struct{}
-	once  sync.Once
+	mu       sync.Mutex
+	hdr      http.Header
+	code     int
+	n        int
+	first    chan struct{}
+	once     sync.Once
+	cli      net.Conn      // client end of a hijacked (upgraded) connection
+	hijacked chan struct{} // closed by Hijack
 }
 
-func newSyncWriter() *syncWriter { return &syncWriter{hdr: http.Header{}, first: make(chan struct{})} }
+func newSyncWriter() *syncWriter {
+	return &syncWriter{hdr: http.Header{}, first: make(chan struct{}), hijacked: make(chan struct{})}
+}
 
 func (w *syncWriter) Header() http.Header { return w.hdr }
 func (w *syncWriter) WriteHeader(c int) {
@@ -1047,7 +1086,18 @@ func (w *syncWriter) Write(b []byte) (int, error) {
 }
 func (w *syncWriter) Flush() {}
 
-func (k *kase) newReq(get bool) string {
+// Hijack hands the handler one end of an in-memory connection; the harness keeps the other
+// (the client of an upgraded connection).
+func (w *syncWriter) Hijack() (net.Conn, *bufio.ReadWriter, error) {
+	srv, cli := net.Pipe()
+	w.mu.Lock()
+	w.cli = cli
+	w.mu.Unlock()
+	close(w.hijacked)
+	return srv, bufio.NewReadWriter(bufio.NewReader(srv), bufio.NewWriter(srv)), nil
+}
+
+func (k *kase) newReq(get, ws bool) string {
 	c := k.cur
 	r := &reqSt{id: len(k.reqs), cfg: c}
 	k.reqs = append(k.reqs, r)
@@ -1059,6 +1109,11 @@ func (k *kase) newReq(get bool) string {
 	r.cancel = cancel
 	req := httptest.NewRequest(method, "http://c09.test/r", nil).WithContext(ctx)
 	req.Header.Set("X-Rid", strconv.Itoa(r.id))
+	if ws {
+		r.ws = true
+		req.Header.Set("Connection", "Upgrade")
+		req.Header.Set("Upgrade", "websocket")
+	}
 	w := newSyncWriter()
 	r.w = w
 	repl := caddy.NewReplacer()
@@ -1326,7 +1381,10 @@ func (p *prop) runSched(K int, src stepSource, U time.Duration, cf bool) (impl s
 				break
 			}
 			moved = k.cur
-			ev = k.newReq(st.get)
+			ev = k.newReq(st.get, st.ws)
+			if st.ws {
+				k.tag("upgrade-request")
+			}
 		case 'O', 'A':
 			var quickSince time.Time
 			if st.rid >= len(k.reqs) || !k.reqs[st.rid].parked {
@@ -1339,16 +1397,41 @@ func (p *prop) runSched(K int, src stepSource, U time.Duration, cf bool) (impl s
 				break
 			}
 			moved = r.cfg
-			if st.op == 'O' && st.out == "sb" {
+			if st.op == 'O' && st.out == "wu" && !r.ws {
+				ok = false // only a request that asked for an upgrade can be upgraded
+				break
+			}
+			if st.op == 'O' && (st.out == "sb" || st.out == "wu") {
 				// the response begins: strikes happen now, the request stays in flight
 				k.lastAged = r.aged
-				r.cmd <- "sb"
-				select {
-				case <-r.w.first:
-					ev = "S"
-				case <-time.After(8 * time.Second):
+				r.cmd <- st.out
+				if st.out == "sb" {
+					select {
+					case <-r.w.first:
+						ev = "S"
+					case <-time.After(8 * time.Second):
+						ev = "hang"
+						k.infra = fmt.Sprintf("request %d: the streamed body did not arrive", r.id)
+					}
+				} else {
+					// the upgraded connection is open once the backend's first byte arrives at the client
 					ev = "hang"
-					k.infra = fmt.Sprintf("request %d: the streamed body did not arrive", r.id)
+					select {
+					case <-r.w.hijacked:
+						r.w.mu.Lock()
+						cli := r.w.cli
+						r.w.mu.Unlock()
+						cli.SetReadDeadline(time.Now().Add(8 * time.Second))
+						var b [1]byte
+						if n, _ := cli.Read(b[:]); n == 1 {
+							ev = "S"
+						}
+					case <-time.After(8 * time.Second):
+					}
+					if ev != "S" {
+						k.infra = fmt.Sprintf("request %d: the upgraded connection did not open", r.id)
+					}
+					k.tag("upgraded-connection")
 				}
 				if r.cfg.st.lat && r.cfg.st.p && !r.aged && time.Since(r.since) > latencyLimit/2 {
 					// the machine was so slow that this quick answer may look slow to unhealthy_latency
